@@ -12,27 +12,32 @@ library the code uses).
 namespace NA.Nsx
 
 /-- Group equalisation, all three branches (PATCH of the whole expression when `n < d`,
-POST remove / POST add of single addresses, no call): for every valid edit script between the
+POST remove / POST add of single addresses, no call; since the repair 271f0e7 the whole list is
+PATCHed also when all old addresses would be removed, so the expression is never empty in
+between — the strict manager refuses an empty expression): for every valid edit script between the
 two address lists the emitted calls are accepted by the strict manager and leave the device
 group with exactly the target's address set; policies, services and all other groups are
 untouched. -/
 theorem nsx_group_equalize_converges (diff : Diff)
     (hdiff : ∀ n m eq, validScript n m eq (diff n m eq) = true)
     (S : Store) (ga gb : Group) (hfind : findGroup S.groups ga.id = some ga)
-    (hna : ga.addrs.Nodup) (hnb : gb.addrs.Nodup) :
+    (hna : ga.addrs.Nodup) (hnb : gb.addrs.Nodup) (hbne : gb.addrs ≠ []) :
     ∃ S' f, run S (groupCalls diff ga gb) = some S' ∧
       S'.policies = S.policies ∧ S'.services = S.services ∧
       S'.groups = setGroupAddrs S.groups ga.id f ∧
       (∀ g, (f g).id = g.id ∧ (f g).exprId = g.exprId) ∧
       ∀ x, x ∈ (f ga).addrs ↔ x ∈ gb.addrs :=
-  groupCalls_converges diff hdiff S ga gb hfind hna hnb
+  groupCalls_converges diff hdiff S ga gb hfind hna hnb hbne
 
 /-! Non-vacuity: a valid `diff` exists, and the three branches are reached. -/
 example : ∃ diff : Diff, ∀ n m eq, validScript n m eq (diff n m eq) = true := ⟨prefixDiff, prefixDiff_valid⟩
 example : groupCalls trivialDiff ⟨"g", "id", "t", ["1", "2", "3"]⟩ ⟨"h", "id", "t", ["1", "2"]⟩ =
     [.patchExpr "g" "id" "t" ["1", "2"]] := by decide
-example : groupCalls trivialDiff ⟨"g", "id", "t", ["1", "2"]⟩ ⟨"h", "id", "t", ["2", "3"]⟩ =
-    [.postAddrs "g" "id" false ["1", "2"], .postAddrs "g" "id" true ["2", "3"]] := by decide
+example : groupCalls prefixDiff ⟨"g", "id", "t", ["1", "2"]⟩ ⟨"h", "id", "t", ["1", "3"]⟩ =
+    [.postAddrs "g" "id" false ["2"], .postAddrs "g" "id" true ["3"]] := by decide
+/-- all old addresses replaced: one PATCH, no transiently empty expression (repair 271f0e7) -/
+example : groupCalls prefixDiff ⟨"g", "id", "t", ["1"]⟩ ⟨"h", "id", "t", ["3"]⟩ =
+    [.patchExpr "g" "id" "t" ["3"]] := by decide
 example : groupCalls trivialDiff ⟨"g", "id", "t", []⟩ ⟨"h", "id", "t", []⟩ = [] := by decide
 
 /-- Rules of one policy present on both sides (`diffRules`: unique names, `sortRules`, the
